@@ -336,3 +336,46 @@ func genShape(tc *conformancev1.TestCase) string {
 	}
 	return strings.Join(tags, " ")
 }
+
+// genDegenerate turns a well-formed generated case into a parseable but
+// malformed one and returns what was done. Such a case is only loaded.
+func genDegenerate(tp *simrt.Tape, tc *conformancev1.TestCase) string {
+	switch tp.Choose(9, "degenerate.kind") {
+	case 0:
+		tc.Request = nil
+		return "test case without request"
+	case 1:
+		tc.Request.TestName = ""
+		return "empty test name"
+	case 2:
+		tc.Request.RequestMessages = append(tc.Request.RequestMessages, &anypb.Any{TypeUrl: "type.googleapis.com/does.not.Exist", Value: []byte{1, 2, 3}})
+		return "request message of an unknown type"
+	case 3:
+		a, _ := anypb.New(&conformancev1.UnaryRequest{})
+		if tc.Request.StreamType == conformancev1.StreamType_STREAM_TYPE_UNARY {
+			a, _ = anypb.New(&conformancev1.BidiStreamRequest{})
+		}
+		tc.Request.RequestMessages = []*anypb.Any{a}
+		return "request message type does not fit the stream type"
+	case 4:
+		tc.Request.StreamType = conformancev1.StreamType_STREAM_TYPE_UNSPECIFIED
+		return "stream type unspecified"
+	case 5:
+		if len(tc.Request.RequestMessages) > 0 {
+			tc.Request.RequestMessages[0].Value = []byte{0xff, 0xff, 0xff, 0x0f, 0x01}
+		}
+		return "request message with undecodable bytes"
+	case 6:
+		for i := 0; i <= len(tc.Request.RequestMessages); i++ {
+			tc.ExpandRequests = append(tc.ExpandRequests, &conformancev1.TestCase_ExpandedSize{SizeRelativeToLimit: proto.Int32(0)})
+		}
+		return "more expand directives than request messages"
+	case 7:
+		tc.Request.RequestMessages = nil
+		tc.ExpandRequests = []*conformancev1.TestCase_ExpandedSize{{}}
+		return "no request messages but an expand directive"
+	default:
+		tc.Request.RequestMessages = append(tc.Request.RequestMessages, nil)
+		return "nil request message"
+	}
+}
